@@ -17,7 +17,10 @@ def N(id, p, n, k, b=""):
 
 STAGE = [N(20, P, "stage", "dir"), N(21, 20, "d", "dir"), N(22, 21, "c", "dir"), N(23, 20, "l_out", "lnk", "../../out"),
          N(24, 20, "l_abs", "lnk", "/../../out"), N(25, 20, "f", "file"), N(26, 20, "l_secret", "lnk", "../out/secret"),
-         N(27, OUT, "sub", "dir"), N(28, 27, "c", "dir")]
+         N(27, OUT, "sub", "dir"), N(28, 27, "c", "dir"),
+         # twins OUTSIDE the root of names that lookups end in: after an escape through "..", a trailing symlink / file of
+         # that name is found next to the moved directory (a no-follow lookup that skips its checks returns it)
+         N(40, OUT, "up", "lnk", "host-link-body-1"), N(41, 27, "up", "lnk", "host-link-body-2"), N(42, 27, "f", "file"), N(43, OUT, "e", "dir"), N(44, 27, "e", "dir")]
 
 RACE_TREES = {
     "chain": [N(5, R, "a", "dir"), N(6, 5, "b", "dir"), N(7, 6, "c", "dir"), N(8, 7, "f", "file"), N(9, R, "e", "dir")] + STAGE,
@@ -35,7 +38,7 @@ MIRROR_ACTS = [dict(act="rename", sp=30, sn="d", dp=P, dn="d", prio=1)]
 
 LOOKUP_PATHS = {
     "chain": ["a/b/c/f", "a/b/../b/c", "a/b/c/../../../e", "a/b/c/..", "a/../a/b/../../e"],
-    "links": ["la/c/f", "a/b/up", "a/b/up/a", "ldd/f", "ldd", "la/../b/c", "a/b/c/../up", "la/up/e/.."],
+    "links": ["la/c/f", "a/b/up", "a/b/up/a", "ldd/f", "ldd", "la/../b/c", "a/b/c/../up", "la/up/e/..", "a/b/c/../../b/up"],
 }
 
 
